@@ -60,7 +60,7 @@ def build_trees(quick, r):
 def c07_trace(tid, name, mk, kind, ncalls, r):
     import catalog
     ev = []
-    seeds = [r.randint(1, 10 ** 6), r.randint(1, 10 ** 6)]
+    seeds = [0, r.randint(1, 10 ** 6)]
     undrawn = set()
     try:
         insts = []
@@ -239,7 +239,7 @@ def get_item(ds, item, i):
 def c08_trace(tid, name, build, item, probe, r, nreq):
     ev = []
     cls = gw.ClassIds()
-    seeds = [r.randint(1, 10 ** 5) for _ in range(2)]
+    seeds = [0, r.randint(1, 10 ** 5)]  # seed 0 is a seed like any other
     try:
         for seed in seeds:
             gw.perturb_globals(r.randint(0, 10 ** 6))
